@@ -176,9 +176,26 @@ pub fn format_date(
 
 pub fn format_highres_date(t: f64, offset: Option<i32>) -> String {
     let offset = offset.unwrap_or(0);
-    let datetime = Utc.timestamp_opt(t as i64 + offset as i64, 0).unwrap();
-    let highres_seconds = format!("{:.9}", t - t.floor())[1..].to_string();
-    let offset_str = format!(" {:+03}{:02}", offset / 3600, (offset / 60) % 60);
+    // Whole seconds are the floor of t (also for negative t), so that the
+    // fraction printed below is the non-negative remainder.
+    let mut seconds = t.floor() as i64;
+    let fraction = format!("{:.9}", t - t.floor());
+    if fraction.starts_with('1') {
+        // the fraction rounded up to 1.000000000: carry into the seconds
+        seconds += 1;
+    }
+    let datetime = Utc.timestamp_opt(seconds + offset as i64, 0).unwrap();
+    let highres_seconds = fraction[1..].to_string();
+    // Print sign, hours and minutes of the offset separately so that
+    // negative offsets that are not whole hours stay parseable (-0330).
+    let offset_sign = if offset < 0 { '-' } else { '+' };
+    let abs_offset = offset.unsigned_abs();
+    let offset_str = format!(
+        " {}{:02}{:02}",
+        offset_sign,
+        abs_offset / 3600,
+        (abs_offset / 60) % 60
+    );
     format!(
         "{}{}{}",
         datetime.format(DEFAULT_DATE_FORMAT),
